@@ -3,7 +3,7 @@ from __future__ import annotations
 
 import ast
 
-from ..readerrules import READER, lemma_no_consume_on_failure, lemma_no_silent_clamp, stream_reader_uses
+from ..readerrules import READER, lemma_no_consume_on_failure, lemma_no_silent_clamp, lemma_reader_truth, stream_reader_uses
 from ..report import Finding, Run
 from ..sessrules import SESSION_CLASSES, common_coverage, exc_short, extraction, path_key, where
 from ..session import SESSION_MOD, AttrRef, Sym, Unknown, desc
@@ -29,6 +29,7 @@ def check(model: Model, run: Run) -> None:
         raise AnalysisError("LDAPSession.receive not found")
     lemma_no_consume_on_failure(model, run, "C02")
     lemma_no_silent_clamp(model, run, mr)
+    lemma_reader_truth(model, run)
     # ---- L3 residue discipline (Engine D paths of the base receive) ---------------
     n_paths = 0
     for p in ex.paths[BASE]:
